@@ -346,33 +346,53 @@ func (a *Activation) appendSlice(st *State, s, more Term, sT, moreT types.Type, 
 		sortName = k
 	}
 	n := g.define("apn", sLen(more))
-	newLen := g.define("apl", bvop("bvadd", sLen(s), n))
+	resArr, resOff, newLen, resCap := a.appendPrep(st, s, n, pos)
+	// the first len(s) elements of the result equal the old elements: an identity copy
+	// when appending in place, a real copy after reallocation (one uniform definition)
+	if l, ok := constBV(sLen(s)); !ok || l != 0 {
+		a.memcpy(st, sortName, resArr, resOff, sArr(s), sOff(s), sLen(s))
+	}
+	// append new elements: explicitly when their number is a small constant
+	if c, ok := constBV(n); ok && c <= 8 {
+		for i := uint64(0); i < c; i++ {
+			v := g.heapSelect(g.heap(st, sortName), elemLoc(sArr(more), bvop("bvadd", sOff(more), bv64(i))))
+			st.heaps[sortName] = g.heapStore(g.heap(st, sortName), elemLoc(resArr, bvop("bvadd", bvop("bvadd", resOff, sLen(s)), bv64(i))), v)
+		}
+	} else {
+		a.memcpy(st, sortName, resArr, bvop("bvadd", resOff, sLen(s)), sArr(more), sOff(more), n)
+	}
+	res := mkSlice(resArr, resOff, newLen, resCap)
+	// append(nil, empty...) stays nil
+	if c, ok := constBV(n); !ok || c == 0 {
+		res = ite(and(eq(n, bv64(0)), eq(sArr(s), nilLoc)), s, res)
+	}
+	return g.define("app", res)
+}
+
+// appendPrep decides where the result of append(s, n more elements) lives: the same
+// array (in place, capacity suffices) or a fresh one. Both cases are described by one
+// pair (ra, ro) so that callers can state the content of the result uniformly.
+func (a *Activation) appendPrep(st *State, s, n Term, pos token.Pos) (ra, ro, newLen, resCap Term) {
+	g := a.g
+	newLen = g.define("apl", bvop("bvadd", sLen(s), n))
 	a.allocCheck(st, newLen, pos)
-	fits := bvcmp("bvule", newLen, sCap(s))
-	// Two cases merged: in place (fits) or fresh array (copy old content then new).
-	// To keep one heap version we introduce the result array/offset by cases.
+	fits := g.define("fits", bvcmp("bvule", newLen, sCap(s)))
 	fresh := g.newObject(st, "append")
 	newCap := g.fresh("apcap", bvSort(64))
 	g.assertLine(and(bvcmp("bvuge", newCap, newLen), bvcmp("bvule", newCap, bv64(1<<40))), newCap)
-	resArr := ite(fits, sArr(s), fresh)
-	resOff := ite(fits, sOff(s), bv64(0))
-	resCap := ite(fits, sCap(s), newCap)
-	resArr = g.define("apa", resArr)
-	resOff = g.define("apo", resOff)
-	// copy old content when reallocating: n_old = fits ? 0 : len(s)
-	oldN := ite(fits, bv64(0), sLen(s))
-	if sLen(s).S != bv64(0).S {
-		a.memcpy(st, sortName, fresh, bv64(0), sArr(s), sOff(s), oldN)
+	if c, ok := constBV(sCap(s)); ok && c == 0 {
+		// appending to an empty-capacity slice always allocates
+		if cn, ok := constBV(n); ok && cn > 0 {
+			return fresh, bv64(0), newLen, newCap
+		}
 	}
-	if fitsPossible := true; fitsPossible {
-		a.frameRangeCond(st, fits, sArr(s), bvop("bvadd", sOff(s), sLen(s)), n, pos)
-	}
-	// append new elements
-	a.memcpy(st, sortName, resArr, bvop("bvadd", resOff, sLen(s)), sArr(more), sOff(more), n)
-	res := mkSlice(resArr, resOff, newLen, resCap)
-	// append(nil, empty...) stays nil
-	res = ite(and(eq(n, bv64(0)), eq(sArr(s), nilLoc)), s, res)
-	return g.define("app", res)
+	ra = g.fresh("apa", SLoc)
+	ro = g.fresh("apo", bvSort(64))
+	g.assertLine(and(implies(fits, and(eq(ra, sArr(s)), eq(ro, sOff(s)))), implies(not(fits), and(eq(ra, fresh), eq(ro, bv64(0)))),
+		eq(app("Int", "root", ra), ite(fits, app("Int", "root", sArr(s)), app("Int", "root", fresh)))), ra, ro)
+	resCap = ite(fits, sCap(s), newCap)
+	a.frameRangeCond(st, fits, sArr(s), bvop("bvadd", sOff(s), sLen(s)), n, pos)
+	return ra, ro, newLen, resCap
 }
 
 func (a *Activation) strEq(st *State, x, y Term) Term {
